@@ -470,6 +470,27 @@ func builtBoxes() []Seed {
 	add("hvcC", "noarrays", hvcC())
 	add("hvcC", "empty-array", hvcC(hvcArray(true, 32), hvcArray(true, 33, sps5), hvcArray(false, 34)))
 	add("hvcC", "empty-array-last", hvcC(hvcArray(true, 33, sps5), hvcArray(true, 39)))
+	// every field of the fixed hvcC part with values other than the Main-profile defaults (box header 8 bytes,
+	// then configurationVersion at 8, profile byte at 9, ...)
+	for _, v := range []struct {
+		name string
+		off  int
+		val  []byte
+	}{
+		{"high-tier", 9, []byte{0x21}}, {"profile-space-1", 9, []byte{0x41}}, {"profile-space-3,tier,idc-31", 9, []byte{0xff}}, {"idc-4", 9, []byte{0x04}},
+		{"compat-all", 10, []byte{0xff, 0xff, 0xff, 0xff}}, {"compat-low-bit", 10, []byte{0, 0, 0, 1}},
+		{"constraint-rext", 14, []byte{0x9d, 0x08, 0, 0, 0, 0}}, {"constraint-all", 14, []byte{0xff, 0xff, 0xff, 0xff, 0xff, 0xff}}, {"constraint-last-bit", 14, []byte{0, 0, 0, 0, 0, 1}},
+		{"level-255", 20, []byte{0xff}}, {"level-0", 20, []byte{0}},
+		{"min-spatial-seg-4095", 21, []byte{0xff, 0xff}}, {"min-spatial-seg-1", 21, []byte{0xf0, 0x01}},
+		{"parallelism-3", 23, []byte{0xff}}, {"chroma-3", 24, []byte{0xff}}, {"chroma-0", 24, []byte{0xfc}},
+		{"bitdepth-luma-15", 25, []byte{0xff}}, {"bitdepth-chroma-15", 26, []byte{0xff}},
+		{"avg-frame-rate-65535", 27, []byte{0xff, 0xff}}, {"avg-frame-rate-1", 27, []byte{0, 1}},
+		{"cfr-3,layers-7,nested,len-4", 29, []byte{0xff}}, {"cfr-1,layers-1,len-4", 29, []byte{0x4b}}, {"cfr-0,layers-0,len-4", 29, []byte{0x03}},
+	} {
+		b := hvcC(hvcArray(true, 32, vps), hvcArray(true, 33, sps5), hvcArray(false, 34, pps5))
+		copy(b[v.off:], v.val)
+		add("hvcC", v.name, b)
+	}
 	av1cfg := cat(u8(0x81, 0x04, 0x0c, 0x00), []byte{0x0a, 0x0b, 0x00, 0x00, 0x00, 0x24, 0xcf, 0x7f, 0x0d, 0xbf, 0xff, 0x30, 0x08})
 	add("av1C", "obus", bx("av1C", av1cfg))
 	add("av1C", "delay", bx("av1C", u8(0x81, 0x25, 0xce, 0x15)))
